@@ -51,3 +51,12 @@ Example C05_example :
     (match r with Ok None => 0 | Ok (Some _) => 1 | Err _ => 2 | Panic => 3 end, mon_run r_step true tr)%nat in
   go None = (0%nat, Some true) /\ go (Some (0%nat, ESTALE)) = (0%nat, Some true) /\ go (Some (0%nat, EIO)) = (2%nat, Some false).
 Proof. vm_compute. repeat split. Qed.
+
+(** The kinds of error the library's source inspects are those the model handles
+    (regenerated from the source on every run). *)
+From Kismet Require Import Gen.Constants Gen.ErrKinds.
+Theorem C05_error_kinds_inspected :
+  Constants.ERROR_KINDS_INSPECTED =
+  ["benign_error.rs:ESTALE"; "benign_error.rs:NotFound"; "cache_dir.rs:InvalidInput"; "lib.rs:Other";
+   "raw_cache.rs:AlreadyExists"; "stack.rs:NotFound"; "stack.rs:Unsupported"]%string.
+Proof. exact error_kinds_inspected. Qed.
